@@ -47,7 +47,7 @@ EXPECTED_PROBES = ["two_pass_kernel", "retry_after_alloc_error_pass1", "retry_af
                    "submask_used", "batch_size_1", "batch_nondivisor", "alias_name_used",
                    "upsampling_gt1", "filter_used", "linearity_checked", "recombination_checked",
                    "parallax_zero_aberration", "parallax_defocus_shift", "fractional_aperture_weight",
-                   "parallax_with_rotation", "override_used"]
+                   "parallax_with_rotation", "override_used", "cropped_mask_instance"]
 
 KERNELS = {"ssb": ["ssb", "single-sideband", "acbf", "aberration-corrected-bright-field"],
            "obf": ["obf", "optimum-bright-field"], "mf": ["mf", "matched-filter"],
@@ -120,6 +120,13 @@ def gen(rng: Rng, tier, i):
     if rng.chance(0.5):
         plan["linearity"] = {"alpha": round(rng.uniform(-2, 2), 2), "beta": round(rng.uniform(-2, 2), 2),
                              "kernel": rng.pick(list(KERNELS)), "b": ["knob", rng.randrange(10 ** 6)]}
+    # the same detector pixels described by a cropped mask array (crop_bf_mask=True is the library's
+    # default; bf_mask_padding_px varies): the result depends on the stack, the mask and the
+    # hyper-parameters only, not on how much empty border the mask array carries
+    cr = rng.fork("crop")
+    plan["crop"] = {"pad": cr.pick([0, 1, 1, 2]), "kernel": cr.pick([k_ for al in KERNELS.values() for k_ in al]),
+                    "up": cr.pick([1, 1, 2]), "flip": cr.chance(0.3),
+                    "b": ["knob", cr.randrange(10 ** 6)]} if cr.chance(0.5) else None
     plan["recombine"] = {"kernel": rng.pick(["ssb", "prlx", "icom"]), "seed": rng.randrange(10 ** 6),
                          "b": ["knob", rng.randrange(10 ** 6)]} if rng.chance(0.5) else None
     return plan
@@ -137,13 +144,15 @@ def _stack(plan, nb, salt=0):
     return (g.random((nb, *plan["scan"])) + 0.5).astype(np.float32)
 
 
-def _make(plan, vbf, mask, ab=None, rot=None):
+def _make(plan, vbf, mask, ab=None, rot=None, crop_pad=None):
     v = _ctx["D3"].from_array(vbf, sampling=(1, 0.5, 0.5), units=("index", "A", "A"))
     m = _ctx["D2"].from_array(mask, sampling=(plan["rs"], plan["rs"]), units=("A^-1", "A^-1"))
+    kw = {"crop_bf_mask": False} if crop_pad is None else {"crop_bf_mask": True,
+                                                            "bf_mask_padding_px": crop_pad}
     return _ctx["dp"].DirectPtychography.from_virtual_bfs(
         v, m, energy=300e3, rotation_angle=plan["rot"] if rot is None else rot,
         aberration_coefs=dict(plan["ab"] if ab is None else ab), semiangle_cutoff=plan["cutoff"],
-        crop_bf_mask=False, verbose=0)
+        verbose=0, **kw)
 
 
 def _b(spec, n):
@@ -293,6 +302,41 @@ def run(plan):
             if not _relerr(D.corrected_bf.detach().numpy(), ref_bf) <= 5 * TOL:
                 viol("not_batch_or_history_invariant", f"{tag}: corrected_bf deviates",
                      f"not_batch_or_history_invariant:bf:{kern}")
+        # ---- cropped mask array vs the un-cropped one
+        cr = plan.get("crop")
+        if cr:
+            ms = np.fft.fftshift(mask)
+            ii, jj = np.nonzero(ms)
+            fits = min(ii.min(), jj.min()) - cr["pad"] >= 0 and max(ii.max(), jj.max()) + cr["pad"] < mask.shape[0]
+            smaller = (ii.max() - ii.min() + 1 + 2 * cr["pad"]) < mask.shape[0]
+            if fits:
+                kern = canon(cr["kernel"])
+                kw = {"deconvolution_kernel": cr["kernel"], "upsampling_factor": cr["up"],
+                      "parallax_flip_phase": cr["flip"]}
+                full = _make(plan, vbf.copy(), mask).reconstruct(max_batch_size=None, **kw)
+                fs = full.corrected_stack.detach().numpy().copy()
+                try:
+                    Dc = _make(plan, vbf.copy(), mask, crop_pad=cr["pad"])
+                    if smaller and tuple(Dc.bf_mask.shape) == tuple(mask.shape):
+                        raise HarnessError("crop_bf_mask=True did not crop a croppable mask")
+                    if smaller:
+                        bump(probes, "cropped_mask_instance")
+                    cs = Dc.reconstruct(max_batch_size=_b(cr["b"], nb), **kw
+                                        ).corrected_stack.detach().numpy()
+                except HarnessError:
+                    raise
+                except Exception as e:
+                    viol("op_raised", f"cropped-mask instance (pad {cr['pad']}) raised {e!r}",
+                         f"op_raised:crop:{kern}:{type(e).__name__}")
+                    cs = None
+                if cs is not None and np.isfinite(fs).all() and np.abs(fs).max() > 0:
+                    if cs.shape != fs.shape or not _relerr(cs, fs) <= TOL:
+                        err = _relerr(cs, fs) if cs.shape == fs.shape else float("nan")
+                        viol("depends_on_mask_array_border",
+                             f"kernel {cr['kernel']} up={cr['up']}: instance built with crop_bf_mask=True, "
+                             f"bf_mask_padding_px={cr['pad']} (mask {mask.shape} -> {tuple(Dc.bf_mask.shape)}"
+                             f") deviates from the un-cropped instance by {err:.3g}",
+                             f"depends_on_mask_array_border:{kern}")
         # ---- linearity
         lin = plan.get("linearity")
         if lin:
@@ -448,7 +492,7 @@ def shrink(plan):
     from .. import simhist
 
     yield from simhist.shrink_history(plan, "calls")
-    for key in ("linearity", "recombine"):
+    for key in ("linearity", "recombine", "crop"):
         if plan.get(key):
             yield {**plan, key: None}
     if plan.get("analytic"):
